@@ -1,4 +1,5 @@
 import AlgoVerif.Model.C14W
+import AlgoVerif.Model.C14S
 /-!
 # Spec for C14: what the graph algorithms are supposed to compute
 
@@ -67,12 +68,7 @@ def RespectsArcs (E : Nat → Nat → Prop) (order : List Nat) : Prop :=
 
 /-! ### graphs given as vertex count and edge list -/
 
-/-- one `AddEdge` call: endpoints as given by the caller (any `int`), weight (0 for the unweighted types) -/
-structure EdgeIn where
-  u : Int
-  v : Int
-  w : Int := 0
-  deriving Repr
+-- `EdgeIn` (one `AddEdge` call: endpoints as given by the caller, weight) is defined in `Model/C14S.lean`
 
 /-- `NewDirected(n, es…)` / `NewWeightedDirected(n, es…)` -/
 def buildDirected (n : Nat) (es : List EdgeIn) : Graph :=
